@@ -171,8 +171,31 @@ class Runner:
             self.violations.append((args, res))
         return rerun
 
+    def replay_known(self):
+        """Each listed finding carries a minimised replay file: re-execute it so that the KNOWN-FINDING line is
+        reproduced deterministically on every run (and silently disappears once the defect is repaired)."""
+        todo = []
+        for k in self.known:
+            path = k.get("replay")
+            if not path:
+                continue
+            with open(os.path.join(VERIF_ROOT, path)) as f:
+                rec = json.load(f)
+            todo.append((k, rec["args"]))
+        if not todo:
+            return
+        rs = self._eval_many([a for _, a in todo])
+        for (k, a), res in zip(todo, rs):
+            v = (res or {}).get("violation")
+            if v and v["property"] == self.spec.prop and sig_matches(k, v):
+                hit = self.known_hits.setdefault(k["id"], {"finding": k, "count": 0, "example_seed": f"replay {k['replay']}", "msg": v["msg"]})
+                hit["count"] += 1
+            else:
+                print(f"NOTE: known finding {k['id']} did not reproduce from {k['replay']} (got {v['sig'] if v else 'no violation'})")
+
     def run(self) -> int:
         spec = self.spec
+        self.replay_known()
         deadline = self.t0 + spec.budget(self.tier)
         pairs = self.execute(spec.jobs(self.tier, self.seed), deadline)
         rerun = self.classify(pairs)
@@ -385,6 +408,7 @@ def main(spec: CheckSpec, argv: Optional[List[str]] = None) -> int:
     ap.add_argument("--max-runs", type=int, default=None)
     ap.add_argument("--replay", default=None)
     ap.add_argument("--one", type=int, default=None, help="debug: run the job with this index in a fresh interpreter and print its result")
+    ap.add_argument("--make-known", default=None, help="SEED:relative/path.json - shrink the violation of that run seed and store it as a known-finding replay")
     ap.add_argument("--sigs", action="store_true", help="debug: run and print all violation signatures with counts, no shrinking")
     a = ap.parse_args(argv)
     if a.one is not None:
@@ -404,6 +428,21 @@ def main(spec: CheckSpec, argv: Optional[List[str]] = None) -> int:
                     print((v.get("detail", {}).get("exc") or {}).get("tb", ""))
                     print("ops:", json.dumps(res.get("ops"))[:2000])
                 return 0
+    if a.make_known:
+        seed_s, out = a.make_known.split(":", 1)
+        rn = Runner(spec, a.tier, a.seed, a.workers, None)
+        rn.known = []
+        args = next(x for x in spec.jobs(a.tier, a.seed) if x.get("seed") == int(seed_s))
+        res = rn._eval_many([{**args, "return_case": True}])[0]
+        if not (res and res.get("violation")):
+            print("no violation for that seed")
+            return 2
+        margs, mres = rn.shrink(args, res)
+        os.makedirs(os.path.dirname(os.path.join(VERIF_ROOT, out)), exist_ok=True)
+        with open(os.path.join(VERIF_ROOT, out), "w") as f:
+            json.dump({"property": spec.prop, "fn": spec.fn, "hashseed": spec.hashseed, "violation": mres["violation"], "args": margs}, f, indent=1, default=str)
+        print("wrote", out, mres["violation"]["sig"], len(spec.ops_of(margs)), "ops")
+        return 0
     if a.sigs:
         rn = Runner(spec, a.tier, a.seed, a.workers, a.max_runs)
         pairs = rn.execute(spec.jobs(a.tier, a.seed), time.time() + spec.budget(a.tier))
